@@ -247,6 +247,7 @@ fn handlers_part(rep: &Arc<Reporter>, args: &Args) {
     let rounds = args.qt(150u64, 4000u64);
     rt.block_on(async {
         let mut r = Rng::derive(args.seed, 0xc19b, 0);
+        let mut unguarded = 0u32;
         for round in 0..rounds {
             let ctx = Arc::new(env::make_ctx(&dir, env::CtxOpts { tweak: Some(Box::new(|b| b.speedtest_enable(true))), ..Default::default() }));
             let nsess = r.range(1, 6) as usize;
@@ -254,9 +255,11 @@ fn handlers_part(rep: &Arc<Reporter>, args: &Args) {
             let finished = Arc::new(AtomicU64::new(0));
             let mut clients = vec![];
             let mut servers = vec![];
+            let mut kinds: Vec<String> = vec![];
             for s in 0..nsess {
                 let kind = r.below(4);
                 let proto = if r.chance(1, 2) { Proto::H2 } else { Proto::H1 };
+                kinds.push(format!("{} over {:?}", ["tunnel with an open stream", "tunnel", "ping", "speedtest"][kind as usize], proto));
                 let (client, server_io) = tokio::io::duplex(64 * 1024);
                 let (ctx2, fin) = (ctx.clone(), finished.clone());
                 let id = round * 10 + s as u64;
@@ -310,15 +313,28 @@ fn handlers_part(rep: &Arc<Reporter>, args: &Args) {
             // Shutdown object itself reports nsess more handles and guards than before the sessions were spawned.
             let sd = ctx.shutdown.clone();
             let mut registered = false;
+            let mut handles_only_for = 0u32;
+            let mut last = (0usize, 0usize);
             for _ in 0..5000 {
                 let (n, g) = sd.lock().unwrap().verif_participants();
+                last = (n, g);
                 if n >= base_participants.0 + nsess && g >= base_participants.1 + nsess { registered = true; break; }
+                // every session's handler has subscribed to the notification, yet fewer completion guards are held
+                if n >= base_participants.0 + nsess { handles_only_for += 1; if handles_only_for > 1500 { break; } } else { handles_only_for = 0; }
                 tokio::time::sleep(Duration::from_millis(1)).await;
             }
             if !registered {
-                rep.inconclusive("handlers: not every session handler had registered with Shutdown within 5 s (machine too slow to tell)");
+                if handles_only_for > 1500 {
+                    unguarded += 1;
+                    rep.violation("a session handler registered for the shutdown notification holds no completion guard (completion() cannot wait for it)",
+                        json!({"kind":"shutdown-handlers","round":round,"sessions":nsess,"notification_handles":last.0 - base_participants.0,"completion_guards":last.1 - base_participants.1,
+                               "session_kinds":kinds.clone()}));
+                } else {
+                    rep.inconclusive("handlers: not every session handler had registered with Shutdown within 5 s (machine too slow to tell)");
+                }
                 for (_, _, _, j) in clients { j.abort(); }
                 for s in servers { s.abort(); }
+                if unguarded >= 3 { break; }
                 continue;
             }
             sd.lock().unwrap().submit();
